@@ -54,6 +54,15 @@ CHECKS = {
  "C19": ("other", "coq-interner", "Coq interleaving theorem for the interner model + multi-threaded differential runs",
          "PARTIAL (narrow): for every history, thread set and schedule each thread's observations equal its solo run (atomic interner operations), split lookup/insert refuted, env-var register race exhibited; real threads (K = 2..16) compile and run distinct/identical sources and are compared with solo runs, deadlock = timeout",
          "real schedules are sampled, Mutex atomicity trusted; known finding F11 (env var); defect F24 (dangling as_str) repaired"),
+ "C04": ("other", "coq-parser", "machine-checked proof in Coq for tokenizer, preparser and the complete CST parser + supervised totality oracle on all compile entry points",
+         "PROVED: the scanner, preparser (Lexer theory, C04_lex_total …) and a complete model of cst_parser.rs never run out of fuel 12(n+1), never panic, every error index is inside the input and its span lies on character boundaries (given C13_tiling), CST leaves = token indices (C13_cst_leaves). NOT modelled: lowering, type checker, code generators — for these a supervised crash/hang/span oracle on exhaustive short token sequences, grammar-generated and mutated programs, all shipped sources, random Unicode",
+         "type checking and compile entry points only by oracle; stated nesting bound 200; 20 known findings F40-F59 (panics on erroneous or unusual text, identified by panic site + construct)"),
+ "C12": ("other", "coq-heap", "Coq theorems for the heap/closure model (verified monitor) + event-log replay (hook H2) + steady-state counting",
+         "PARTIAL: heap invariant (present iff allocs+retains > releases), soundness of the executable monitor `balanced` (accepted trace => no use after release, live set = positive counts), steady state for balanced net-zero periods, closure-layer operations replayed by the monitor; real VM: H2 event logs of ~450 programs replayed by the extracted monitor, closures.len()/heap.len() at N/2, N, 2N. Both sentences of the property are REFUTED on the current tree (C12_steady_state_refuted, C12_no_uaf_refuted) and recorded as findings",
+         "compiled programs are not proved to emit balanced traces (they do not); WASM heap observed through outputs only; known findings F21-F25"),
+ "C14": ("other", "coq-fmt", "Coq theorems over all admissible layouts of the formatter's documents (fragment) + direct checking of the three facts on the real formatter",
+         "PARTIAL: for the expression/statement fragment every rendering of a document has the source's token and comment sequence, and under `safe_breaks` every rendering gives the parser the same line-break flags at every sensitive position (hence every width and indent parses alike); idempotence given the re-parse hypothesis; nine refutation theorems. Real formatter: output re-parses to the same AST, same comment sequence, fixed point — on generated programs, all shipped sources and layout mutants at 5 widths x 2 indents",
+         "`pretty`'s width algorithm not modelled; match / type declarations / modules outside the model; 12 known findings (111 of 263 shipped files are mis-formatted)"),
 }
 PENDING_REASON = "check under construction in this session (see DESIGN.md section 4); not yet claimed"
 
